@@ -92,6 +92,7 @@ def check(prop, tier, seed):
         for i, me in enumerate(m['methods']):
             me['codec'] = 'crate::CodecB' if i % 2 else 'crate::CodecA'
         m['opts']['disable_comments'] = ('first', '', 'all')[len(manual) % 3]
+        m['opts']['leave_default'] = len(manual) % 2 == 0      # options that have a documented default are left unset instead of being set to it
         manual.append(m)
     for label, stims in (('descriptors', table), ('manual', manual), ('committed', committed)):
         ev, path = simple.run_lab('codegen', stims, tag, label)
